@@ -49,7 +49,7 @@ func systems() []sysgen {
 		{"NPM", resolve.NPM, npmVer, func(r *rand.Rand, l []Ver) string {
 			switch r.Intn(10) {
 			case 0:
-				return gen.Pick(r, "latest", "next", "beta", "missing-tag")
+				return gen.Pick(r, "latest", "next", "beta", "missing-tag", "next-major", "latest-rc")
 			case 1:
 				return fromList(r, l)
 			case 2:
@@ -176,8 +176,10 @@ func generate(sg sysgen, rng *rand.Rand) Case {
 		if k := rng.Intn(len(list) + 2); k < len(list) {
 			list[k].Tags = "latest"
 		}
-		for _, t := range []string{"next", "beta"} {
-			if rng.Intn(4) == 0 {
+		// Tags that contain another tag's text ("next-major" vs "next",
+		// "not-latest" vs "latest"): a tag is matched whole, not as a substring.
+		for _, t := range []string{"next-major", "next", "beta", "not-latest", "latest-rc"} {
+			if rng.Intn(5) == 0 {
 				k := rng.Intn(len(list))
 				if list[k].Tags == "" {
 					list[k].Tags = t
@@ -186,6 +188,19 @@ func generate(sg sysgen, rng *rand.Rand) Case {
 				}
 			}
 		}
+	}
+	if sg.name == "NPM" && rng.Intn(12) == 0 {
+		// Stratum: a version carrying a tag whose text contains the requested tag.
+		k := rng.Intn(len(list))
+		pair := [][2]string{{"next-major", "next"}, {"latest-rc", "latest"}, {"beta2", "beta"}}[rng.Intn(3)]
+		for j := range list {
+			list[j].Tags = ""
+		}
+		list[k].Tags = pair[0] + "," + pair[1]
+		if rng.Intn(2) == 0 {
+			list[k].Tags = pair[1] + "," + pair[0]
+		}
+		return Case{Sys: sg.name, Req: pair[1], List: list}
 	}
 	if sg.name == "NPM" && rng.Intn(8) == 0 {
 		// Stratum: latest on a prerelease, with a requirement that admits it.
@@ -230,16 +245,30 @@ func one(r *ev.Run, sg sysgen, c Case, rng *rand.Rand) {
 		return
 	}
 	q := resolve.VersionKey{PackageKey: resolve.PackageKey{System: sg.sys, Name: "p"}, VersionType: resolve.Requirement, Version: c.Req}
-	// Membership by singles.
-	var sel []Ver
-	for _, v := range c.List {
-		if len(resolve.MatchRequirement(q, []resolve.Version{mk(sg.sys, v)})) == 1 {
-			sel = append(sel, v)
-		}
-	}
 	isRange := true
 	if _, err := sg.sys.Semver().ParseConstraint(c.Req); err != nil {
 		isRange = false
+	}
+	// Membership: by singles for ranges (C03 compares single-version matching
+	// with the ecosystems' tools); for an npm requirement that is not a range,
+	// by the statement itself: the version whose string or tag equals it.
+	var sel []Ver
+	for _, v := range c.List {
+		if sg.name == "NPM" && !isRange {
+			hit := v.V == c.Req
+			for _, t := range strings.Split(v.Tags, ",") {
+				if t != "" && t == c.Req {
+					hit = true
+				}
+			}
+			if hit {
+				sel = append(sel, v)
+			}
+			continue
+		}
+		if len(resolve.MatchRequirement(q, []resolve.Version{mk(sg.sys, v)})) == 1 {
+			sel = append(sel, v)
+		}
 	}
 	if sg.name == "NPM" && !isRange {
 		r.Count("npm:non-range-requirement", 1)
